@@ -169,6 +169,51 @@ theorem C07_remove_rejected {H : α → α → α} {L : α → Prop} (hI : Merkl
     simp only [List.length_map, List.length_eraseIdx, hi, if_true] at this
     omega
 
+/-- Replacing the transaction at position `i` by one with a different id makes the block rejected. -/
+theorem C07_change_rejected {H : α → α → α} {L : α → Prop} (hI : MerkleIdeal H L)
+    (root : α) (txs : List (Tx α κ)) (sp sp' : Bool) (i : Nat) (hi : i < txs.length) (t' : Tx α κ)
+    (hL : ∀ t ∈ txs, L t.id) (hL' : L t'.id) (hid : t'.id ≠ (txs[i]).id)
+    (h : blockSanityTx H root txs sp = none) :
+    blockSanityTx H root (txs.set i t') sp' ≠ none := by
+  refine C07_mutation_rejected hI root txs _ sp sp' hL ?_ h ?_
+  · intro t ht
+    rcases List.mem_or_eq_of_mem_set ht with h1 | h1
+    · exact hL t h1
+    · rw [h1]; exact hL'
+  · intro e
+    have h1 : ((txs.set i t').map (·.id))[i]? = (txs.map (·.id))[i]? := by rw [e]
+    simp only [List.getElem?_map, List.getElem?_set, hi, if_true] at h1
+    rw [List.getElem?_eq_getElem hi] at h1
+    simp only [Option.map_some, Option.some.injEq] at h1
+    exact hid h1
+
+/-- Reordering: swapping the transactions at two different positions of an accepted block makes it
+    rejected (their ids differ because an accepted block has no repeated id). -/
+theorem C07_swap_rejected {H : α → α → α} {L : α → Prop} (hI : MerkleIdeal H L)
+    (root : α) (txs : List (Tx α κ)) (sp sp' : Bool) (i j : Nat) (hi : i < txs.length) (hj : j < txs.length)
+    (hij : i ≠ j) (hL : ∀ t ∈ txs, L t.id) (h : blockSanityTx H root txs sp = none) :
+    blockSanityTx H root ((txs.set i txs[j]).set j txs[i]) sp' ≠ none := by
+  obtain ⟨_, _, _, _, _, nd, _⟩ := C07_accept_only_if H root txs sp h
+  refine C07_mutation_rejected hI root txs _ sp sp' hL ?_ h ?_
+  · intro t ht
+    rcases List.mem_or_eq_of_mem_set ht with h1 | h1
+    · rcases List.mem_or_eq_of_mem_set h1 with h2 | h2
+      · exact hL t h2
+      · rw [h2]; exact hL _ (List.getElem_mem hj)
+    · rw [h1]; exact hL _ (List.getElem_mem hi)
+  · intro e
+    have h1 : (((txs.set i txs[j]).set j txs[i]).map (·.id))[j]? = (txs.map (·.id))[j]? := by rw [e]
+    have hj' : j < (txs.set i txs[j]).length := by simpa using hj
+    simp only [List.getElem?_map, List.getElem?_set, hj', if_true] at h1
+    rw [List.getElem?_eq_getElem hj] at h1
+    simp only [Option.map_some, Option.some.injEq] at h1
+    -- ids at positions i and j coincide: contradiction with Nodup
+    have hi' : i < (txs.map (·.id)).length := by simpa using hi
+    have e2 : (txs.map (·.id))[i]? = (txs.map (·.id))[j]? := by
+      simp only [List.getElem?_map, List.getElem?_eq_getElem hi, List.getElem?_eq_getElem hj,
+        Option.map_some, h1]
+    exact hij ((List.getElem?_inj hi' nd).mp e2)
+
 /-- A transaction list with a repeated id is rejected whatever the hash function is
     (so the duplicated-tail collision of `C07_dup_tail` cannot be used). -/
 theorem C07_duplicate_rejected (H : α → α → α) (root : α) (txs : List (Tx α κ)) (sp : Bool)
